@@ -299,6 +299,7 @@ func runC07(u *Unit) {
 			cs := *prog
 			f.Task, f.Op, f.Match = "subject", p.op, p.kind
 			cs.Faults = []sim.FaultSpec{f}
+			curCase = &cs
 			res := Execute(&cs)
 			u.Rep.Evals++
 			u.Rep.addStats(res)
@@ -360,7 +361,7 @@ func replayC07(payload json.RawMessage) []Violation {
 
 func init() {
 	Register(&CheckDef{ID: "C07", Level: "fault_enumeration",
-		Rule: "each unit = one sampled program (shapes: new store, new root in an empty store, node splits, updates+removes, separate-segment/actively persisted/globally cached values, two stores); a profiling run lists every intercepted call (L2 cache incl. locks, FileIO, DirectIO registry blocks, transaction log, priority log) the subject makes in its body, Commit and the rollback it triggers; then one run per (call position, applicable error kind: EIO, ENOSPC, EACCES, short write, cache error, lost cache entry) fails exactly that call. Judged: Commit result vs warm and cold dumps of all stores (never a mixture, error => S0, success => S0+W), Count, and a fault-free immediate retry that must commit within 60 simulated seconds. distinct_nontrivial = distinct (program, position, call kind, error kind, outcome) of runs whose fault fired",
+		Rule:    "each unit = one sampled program (shapes: new store, new root in an empty store, node splits, updates+removes, separate-segment/actively persisted/globally cached values, two stores); a profiling run lists every intercepted call (L2 cache incl. locks, FileIO, DirectIO registry blocks, transaction log, priority log) the subject makes in its body, Commit and the rollback it triggers; then one run per (call position, applicable error kind: EIO, ENOSPC, EACCES, short write, cache error, lost cache entry) fails exactly that call. Judged: Commit result vs warm and cold dumps of all stores (never a mixture, error => S0, success => S0+W), Count, and a fault-free immediate retry that must commit within 60 simulated seconds. distinct_nontrivial = distinct (program, position, call kind, error kind, outcome) of runs whose fault fired",
 		Exhaust: "per sampled program: every intercepted call position of the subject x every applicable error kind (single faults); quick tier halves the position space of commits with more than 150 calls",
 		Units: func(tier string) int {
 			if tier == "thorough" {
@@ -369,6 +370,6 @@ func init() {
 			return 16
 		},
 		Run: runC07, Replay: replayC07, Real: realComponents, Stub: stubComponents,
-		Assume: append([]string{"faults are injected above fs.retryIO: an injected error is one that persisted after sop's own retries", "pairs of faults (second fault inside the rollback) are not enumerated"}, commonAssumptions...),
+		Assume:    append([]string{"faults are injected above fs.retryIO: an injected error is one that persisted after sop's own retries", "pairs of faults (second fault inside the rollback) are not enumerated"}, commonAssumptions...),
 		UnitLimit: 900e9})
 }
